@@ -49,6 +49,9 @@ OutcomeFollowsVotes(pre, post, votes) ==
   \A p \in DOMAIN pre : (Rank(pre[p]) = 2 /\ p \in DOMAIN post /\ Rank(post[p]) = 3 /\ p \in DOMAIN votes) =>
       /\ (post[p].store = "Passed" => Passes(votes[p], pre[p].passPct))
       /\ (post[p].outcome = OutNo => Fails(votes[p], pre[p].passPct))
+(* the recorded votes decide: a proposal is not left in voting once its recorded votes make it pass or fail *)
+DecidedAsVotesSay(post, votes) ==
+  \A p \in DOMAIN post : (Rank(post[p]) = 2 /\ p \in DOMAIN votes) => (~Passes(votes[p], post[p].passPct) /\ ~Fails(votes[p], post[p].passPct))
 VotingOnlyWhenGoalMet(pre, post, fundT, h) ==
   \A p \in DOMAIN post : (Rank(post[p]) >= 2 /\ post[p].outcome \notin {OutCancelled, OutInsufficientFunds} /\ (p \notin DOMAIN pre \/ Rank(pre[p]) = 1))
                          => (Get(fundT, p) >= post[p].goal /\ h <= post[p].fundDL)
@@ -102,5 +105,6 @@ GSpec == GInit /\ [][GNext]_gvars
 PropForwardOnly == [][ForwardOnly(pr, pr')]_gvars
 PropExpireAfterDeadline == [][ExpireOnlyAfterDeadline(pr, pr', hh)]_gvars
 PropOutcomeFollowsVotes == [][OutcomeFollowsVotes(pr, pr', vt')]_gvars
+InvDecidedAsVotesSay == DecidedAsVotesSay(pr, vt)
 InvAppliedOnce == \A p \in Props : applied[p] <= 1 /\ (applied[p] = 1 => pr[p].outcome = OutYes)
 =============================================================================
